@@ -107,7 +107,7 @@ def funptr_copy_rule(run, prog, RULE):
 def check(run, prog, tier):
     run.rule("C06-a", "release functions free every owning field of their record on every path (bypass only through the field's own NULL test); every pointer field of an owner record is classified", 14)
     run.rule("C06-c", "when a counted field is re-pointed (old = X->F; X->F = new; release(old)) the reference on the new value is taken before the old one is released", 1)
-    run.rule("C06-b", "every increment of a reference counter narrower than 32 bits is guarded by a test of the same counter (saturation)", 8)
+    run.rule("C06-b", "every reference counter field (ref, refs, func_ref, extra_ref of the counted records) is at least 32 bits wide, or every increment of it is guarded by a test of the same counter (saturation)", 8)
 
     recs = prog.records()
     for fname, rec, fields in OWNERS:
@@ -235,12 +235,13 @@ def check(run, prog, tier):
                    f.file, n.get("l"), f.name, what="%s releases the old %s before it holds a reference on the new one (which may be kept alive only through the old one): the value is freed while the object still points at it" % (f.name, show(src)))
 
     # ---- C06-b
-    narrow = {}
+    counters = {}
     for rn, r in recs.items():
         for fl in r["fields"]:
-            if fl["n"] in ("ref", "func_ref", "extra_ref") and fl.get("w") and fl["w"] < 32:
-                narrow[(rn, fl["n"])] = (fl["w"], r.get("file"), fl.get("l"))
-    run.need(narrow, "narrow reference counters")
+            if fl["n"] in ("ref", "refs", "func_ref", "extra_ref") and fl.get("w"):
+                counters[(rn, fl["n"])] = (fl["w"], r.get("file"), fl.get("l"))
+    run.need(len(counters) >= 8, "reference counter fields (found %d)" % len(counters))
+    narrow = {k: v for k, v in counters.items() if v[0] < 32}
     incs = {}
     for f in prog.functions():
         for b, i, n in f.nodes(skip_cf=False):
@@ -248,17 +249,19 @@ def check(run, prog, tier):
                 e = strip(n["e"])
                 key = (e.get("rec"), e.get("f")) if e.get("k") == "Mem" else None
                 if key in narrow:
-                    base = show(strip(e["b"]))
                     guarded = False
                     for c, t, B in cfgq.guards(f, b.id):
                         for x in walk(c):
                             if x.get("k") == "Mem" and (x.get("rec"), x.get("f")) == key:
                                 guarded = True
                     incs.setdefault(key, []).append((f.name, n.get("l"), guarded))
-    for key, (w, file, line) in sorted(narrow.items()):
+    for key, (w, file, line) in sorted(counters.items()):
+        inst = "narrow:%s.%s" % key
+        if w >= 32:
+            run.ob("C06-b", inst, True, "%d-bit counter %s.%s: cannot be wrapped by the number of references a driver within its memory limits can hold" % (w, key[0], key[1]), file, line, None)
+            continue
         lst = incs.get(key, [])
         unguarded = [(fn, l) for fn, l, g in lst if not g]
-        inst = "narrow:%s.%s" % key
         if not lst:
             run.ob("C06-b", inst, True, "%d-bit counter %s.%s is never incremented directly" % (w, key[0], key[1]), file, line, None)
             continue
